@@ -114,13 +114,19 @@ class World:
                 lines.append(f"C,{op[1]},{esc(op[2])},~")
             elif k in ("V", "X"):
                 C, snap = self.classes[op[1]]
-                if k == "X":
-                    d = C.regex(); self.kind.append("regex")
-                else:
-                    d0 = next(iter(snap))
-                    inst = C.parse(snap[d0], d0)
-                    d = inst.values() if len(self.store) % 2 == 0 else {a: b["value"] for a, b in C.formatter().items()}
-                    self.kind.append("values")
+                try:
+                    if k == "X":
+                        d = C.regex()
+                    else:
+                        d0 = next(iter(snap))
+                        inst = C.parse(snap[d0], d0)
+                        d = inst.values() if len(self.store) % 2 == 0 else {a: b["value"] for a, b in C.formatter().items()}
+                except Exception as e:  # noqa: BLE001 - by the property the class still accepts its frozen text here
+                    if sw is not None:
+                        sw.check(False, "a constant class is not frozen: after this history it no longer accepts its own frozen text (asking for values()/regex() fails)",
+                                 {"clause": "history", "history": [l for l in lines if l], "snapshot": snap}, "a dictionary", f"{type(e).__name__}: {e}")
+                    break
+                self.kind.append("regex" if k == "X" else "values")
                 self.store.append(d)
                 lines.append(f"{k},{op[1]}")
             elif k == "S":
@@ -253,8 +259,23 @@ def sweep_groups(sw, r, tier):
             continue
         if any(not isinstance(v, str) for o in objs.values() for v in o.values().values()):
             continue
-        g = G(objs)
         mfmt = {nm: corr_fmt.KINDS[k].base_fmt for nm, k in decl}
+        if r.random() < 0.4:
+            # a group in which one member was never stated (it keeps its default): freezing it must freeze the default
+            cands = [nm for nm, k in decl if k != "naming"]   # a default Naming is the empty name, outside the C01 domain
+            if not cands:
+                continue
+            omit = r.choice(cands)
+            pfmt = " / ".join("{" + nm + ":" + mfmt[nm] + "}" for nm, _ in decl if nm != omit)
+            try:
+                g = G.parse(G(objs).format(pfmt), pfmt)
+                objs = dict(g.groups)
+            except Exception:  # noqa: BLE001
+                continue
+            if any(not isinstance(v, str) for o in objs.values() for v in o.values().values()):
+                continue
+        else:
+            g = G(objs)
         fmt = " / ".join("{" + nm + ":" + mfmt[nm] + "}" for nm, _ in decl)
         for kk in range(1, len(decl) + 1):
             for inc in itertools.combinations([nm for nm, _ in decl], kk):
